@@ -179,6 +179,12 @@ func (l *Lemma) Stmt() Expr {
 	return l.Body
 }
 
+type BeforeClause struct {
+	Callee string // short name as printed in obligation names (Strings, sort.Strings, Recv.Name)
+	E      Expr
+	Line   int
+}
+
 type FuncContract struct {
 	Kind      string // func external iface
 	Pkg       string // import path of the package the contract file belongs to
@@ -197,6 +203,9 @@ type FuncContract struct {
 	Trusted   bool // body not verified (listed as assumption)
 	NoBody    bool // only used as callee contract
 	AllowPanic bool
+	// Before: ghost assertions proved (and then assumed) just before calls of the named callee: an intermediate fact
+	// that splits a proof in two (e.g. the precondition-like antecedent of a callee's conditional postcondition)
+	Before []BeforeClause
 	OwnState   bool // iface contracts: implementations may update their receiver's own cell (opaque to callers of the interface)
 	Line      int
 	File      string
@@ -309,7 +318,7 @@ func (p *parser) ident() (string, error) {
 }
 
 var itemKeywords = map[string]bool{"strmap": true, "spec": true, "axiom": true, "lemma": true, "func": true, "external": true, "iface": true, "table": true, "schema": true}
-var clauseKeywords = map[string]bool{"requires": true, "ensures": true, "modifies": true, "loop": true, "invariant": true, "pure": true, "trusted": true, "props": true, "use": true, "bounded": true, "assumes": true, "allowpanic": true, "ownstate": true, "nobody": true, "uses": true, "keys": true, "sem": true, "local": true, "absfloat": true, "cite": true, "reveal": true, "yields": true}
+var clauseKeywords = map[string]bool{"requires": true, "ensures": true, "modifies": true, "loop": true, "invariant": true, "pure": true, "trusted": true, "props": true, "use": true, "bounded": true, "assumes": true, "allowpanic": true, "ownstate": true, "before": true, "nobody": true, "uses": true, "keys": true, "sem": true, "local": true, "absfloat": true, "cite": true, "reveal": true, "yields": true}
 
 func parseSpecFile(pkg, file, src string) (*SpecFile, error) {
 	lines := extractSpecLines(src)
@@ -777,6 +786,26 @@ func (p *parser) parseContract(sf *SpecFile) (*FuncContract, error) {
 				return nil, err
 			}
 			c.Cites = append(c.Cites, ids...)
+		case "before":
+			name, err := p.ident()
+			if err != nil {
+				return nil, err
+			}
+			for p.acceptP(".") {
+				id, err := p.ident()
+				if err != nil {
+					return nil, err
+				}
+				name += "." + id
+			}
+			if err := p.expectP(":"); err != nil {
+				return nil, err
+			}
+			e, err := p.parseExpr()
+			if err != nil {
+				return nil, err
+			}
+			c.Before = append(c.Before, BeforeClause{Callee: name, E: e, Line: tk.line})
 		case "pure":
 			c.Pure = true
 		case "trusted":
